@@ -22,7 +22,7 @@ import types
 
 import numpy as np
 
-from harness import common, engines, moves, tlc, writers
+from harness import common, engines, moves, tlc
 
 PID = "C12"
 REPO = os.environ.get("VERIF_REPO", "/repo")
@@ -32,27 +32,44 @@ _BAD = re.compile(r'<<"BADCLAUSE", (\d+), "(\w+)">>')
 _DONE = re.compile(r'<<"TRACE-CONSUMED", (\d+), (\d+)>>')
 
 
-def cls_of(x, left, right):
-    return 1 if x < left else (2 if x > right else 0)
+MU = 10 ** 6
+
+
+def mu(x):
+    return int(round(float(x) * MU))
 
 
 def blank_event(engine, **kw):
-    ev = {"engine": engine, "raised": False, "must_raise": False, "first_is_start": True, "frames_reference_k": True, "orders_match": True,
-          "cls": [0], "maxlen": 1, "success": False, "expected_len": 0, "program_stopped": True, "retrace_checked": False, "retrace_ok": True}
+    ev = {"engine": engine, "raised": False, "must_raise": False, "may_raise": False, "maxlen": 1, "left": 0, "right": 0, "start": 0,
+          "stored": [], "recomp": [], "expect": [], "refs": [], "vrev": [], "reverse": False, "samefile": True, "success": False,
+          "program_stopped": True, "request_ok": True, "retrace": [], "retrace_of": []}
     ev.update(kw)
     return ev
 
 
+class PosVelOrder:
+    """x of particle 0 plus a velocity term: sensitive to the velocity direction used for a frame."""
+
+    def __init__(self, c=0.05):
+        self.c = c
+        self.description = "harness: x + c*vx"
+        self.velocity_dependent = True
+
+    def calculate(self, system):
+        return [float(system.pos[0][0]) + self.c * float(system.vel[0][0])]
+
+
 # ---------------------------------------------------------------------------
 def inprocess_job(args):
+    """TurtleMD (velocity Verlet, time reversible), ASE (velocity Verlet) and the lattice plug-in, for real."""
     kind, seed = args
     from infretis.classes.path import Path
     from infretis.classes.system import System
-    from infretis.classes import orderparameter as OP
     rnd = random.Random(seed)
     work = common.tmpdir("c12i-")
     events = []
     try:
+        retraceable = kind in ("turtlemd", "ase")
         if kind == "lattice":
             eng = moves.engine(work, left_wall=-6)
             eng.rgen = np.random.default_rng(seed)
@@ -60,8 +77,12 @@ def inprocess_job(args):
             x0 = rnd.randrange(0, 3)
             with open(start_file, "w") as fh:
                 fh.write(f"{x0} 1\n")
-            readx = lambda f, k: float(__import__("harness.plugins.lattice_engine", fromlist=["read_lat"]).read_lat(f)[k][0])  # noqa: E731
-        else:
+            from harness.plugins.lattice_engine import read_lat
+
+            def frame_order(f, k, vel_rev):
+                return float(read_lat(f)[k][0])
+            start_order = float(x0)
+        elif kind == "turtlemd":
             import tomli
             from infretis.classes.engines.factory import create_engine
             ip = os.path.join(engines.EX, "turtlemd", "double_well")
@@ -77,58 +98,99 @@ def inprocess_job(args):
             eng.integrator = VV
             eng.exe_dir = work
             eng.rgen = np.random.default_rng(seed)
-            eng.order_function = OP.Position((0, 0), periodic=False)
-            from infretis.classes.engines.engineparts import write_xyz_trajectory
+            opf = PosVelOrder(0.05)
+            eng.order_function = opf
             start_file = os.path.join(work, "start.xyz")
-            x0 = rnd.uniform(-0.95, -0.75)
-            write_xyz_trajectory(start_file, np.array([[x0, 0.0, 0.0]]), np.array([[rnd.uniform(0.3, 0.9), 0.0, 0.0]]), ["Z"], None, append=False)
+            x0, v0 = rnd.uniform(-0.95, -0.75), rnd.uniform(0.3, 0.9)
+            with open(start_file, "w") as fh:
+                fh.write(f"1\n# start\nZ {x0:.12f} 0.0 0.0 {v0:.12f} 0.0 0.0\n")
+            from harness import fakemd
 
-            def readx(f, k):
-                from infretis.classes.engines.engineparts import convert_snapshot, read_xyz_file
-                for i, snap in enumerate(read_xyz_file(f)):
-                    if i == k:
-                        return float(convert_snapshot(snap)[1][0][0])
-                raise IndexError(k)
+            def frame_order(f, k, vel_rev):
+                with open(f, "rb") as fh:
+                    pos, vel, _b, _n = fakemd.parse_xyz(fh.read())[k]
+                return float(pos[0][0]) + opf.c * (-1.0 if vel_rev else 1.0) * float(vel[0][0])
+            start_order = x0 + opf.c * v0
+        else:
+            import ase.io
+            from ase import units
+            import tomli
+            from infretis.classes.engines.factory import create_engine
+            ip = os.path.join(engines.EX, "ase", "H2")
+            with open(os.path.join(ip, "infretis0.toml"), "rb") as fh:
+                cfg = tomli.load(fh)
+            cfg["engine"]["calculator_settings"]["module"] = os.path.join(ip, "H2-calc.py")
+            cfg["engine"]["integrator"] = "velocityverlet"
+            cfg["engine"]["subcycles"] = 3
+            for key in ("langevin_fixcm", "langevin_friction"):
+                cfg["engine"].pop(key, None)
+            cfg["engine"]["input_path"] = ip
+            eng = create_engine(cfg)
+            eng.exe_dir = work
+            eng.rgen = np.random.default_rng(seed)
+            cvel = 20.0
+            opf = PosVelOrder(cvel)
+
+            class SepOrder:
+                description = "harness: x1 - x0 + c*(vx1 - vx0)"
+                velocity_dependent = True
+
+                def calculate(self, system):
+                    return [float(system.pos[1][0] - system.pos[0][0]) + cvel * float(system.vel[1][0] - system.vel[0][0])]
+            eng.order_function = SepOrder()
+            atoms = ase.io.read(os.path.join(ip, "conf.traj"))
+            atoms.positions[:] = [[1.0, 1.0, 1.0], [1.0 + rnd.uniform(3.3, 3.4), 1.0, 1.0]]
+            v0 = rnd.uniform(0.01, 0.03)
+            atoms.set_velocities([[0.0, 0.0, 0.0], [v0, 0.0, 0.0]])
+            start_file = os.path.join(work, "start.traj")
+            ase.io.write(start_file, atoms)
+
+            def frame_order(f, k, vel_rev):
+                a = ase.io.read(f, index=k)
+                v = a.get_velocities()
+                return float(a.positions[1][0] - a.positions[0][0]) + cvel * (-1.0 if vel_rev else 1.0) * float(v[1][0] - v[0][0])
+            start_order = frame_order(start_file, 0, False)
+            x0 = start_order
         for rep in range(6):
             maxlen = rnd.choice([3, 5, 8, 20, 60])
             if kind == "lattice":
                 left, right = -0.5 - rnd.randrange(0, 2), x0 + 0.5 + rnd.randrange(1, 3)
-            else:
+            elif kind == "turtlemd":
                 left, right = -0.99 - rnd.choice([0.0, 0.05]), rnd.choice([-0.6, -0.3, 0.2])
+            else:
+                left, right = start_order - rnd.choice([0.05, 0.5]), start_order + rnd.choice([0.05, 0.2, 5.0])
             reverse = rep % 2 == 1
             s = System()
             s.set_pos((start_file, 0))
-            s.order = [x0]
+            s.order = [start_order]
             path = Path(maxlen=maxlen)
             es = {"interfaces": (left, (left + right) / 2, right), "ens_name": "007"}
             try:
                 success, _status = eng.propagate(path, es, s, reverse=reverse)
             except Exception as exc:  # noqa: BLE001
-                events.append(blank_event(kind, raised=True, detail=f"{type(exc).__name__}: {exc}"))
+                events.append(blank_event(kind, raised=True, detail=f"{type(exc).__name__}: {exc}", args=[kind, seed]))
                 continue
-            ok_ref = ok_ord = True
-            files = {p.config[0] for p in path.phasepoints}
-            for k, p in enumerate(path.phasepoints):
-                if p.config[1] != k or len(files) != 1:
-                    ok_ref = False
+            if reverse and kind != "lattice":
+                # the start point holds forward velocities: backward in time its order parameter is the same number
+                pass
+            recomp = []
+            for p in path.phasepoints:
                 try:
-                    if abs(readx(p.config[0], p.config[1]) - float(p.order[0])) > 1e-6:
-                        ok_ord = False
+                    recomp.append(mu(frame_order(p.config[0], p.config[1], bool(p.vel_rev))))
                 except Exception:  # noqa: BLE001
-                    ok_ord = False
-            first = path.phasepoints[0]
-            ev = blank_event(kind, first_is_start=abs(float(first.order[0]) - x0) < 1e-6, frames_reference_k=ok_ref, orders_match=ok_ord,
-                             cls=[cls_of(float(p.order[0]), left, right) for p in path.phasepoints], maxlen=maxlen, success=bool(success),
-                             vel_rev_ok=all(bool(p.vel_rev) == reverse for p in path.phasepoints))
-            if kind == "turtlemd" and not reverse and path.length >= 3:
+                    recomp.append(-10 ** 9)
+            ev = blank_event(kind, maxlen=maxlen, left=mu(left), right=mu(right), start=mu(start_order),
+                             stored=[mu(p.order[0]) for p in path.phasepoints], recomp=recomp,
+                             refs=[int(p.config[1]) for p in path.phasepoints], vrev=[bool(p.vel_rev) for p in path.phasepoints],
+                             reverse=reverse, samefile=len({p.config[0] for p in path.phasepoints}) == 1, success=bool(success),
+                             args=[kind, seed], rep=rep)
+            if retraceable and not reverse and path.length >= 3:
                 k = rnd.randrange(1, path.length)
                 s2 = path.phasepoints[k].copy()
                 back = Path(maxlen=k + 1)
-                eng.propagate(back, {"interfaces": (-50.0, 0.0, 50.0), "ens_name": "007"}, s2, reverse=True)
-                fw = [float(p.order[0]) for p in path.phasepoints[:k + 1]][::-1]
-                bw = [float(p.order[0]) for p in back.phasepoints]
-                ev["retrace_checked"] = True
-                ev["retrace_ok"] = len(bw) == len(fw) and max(abs(a - b) for a, b in zip(fw, bw)) < 1e-6
+                eng.propagate(back, {"interfaces": (-1000.0, 0.0, 1000.0), "ens_name": "007"}, s2, reverse=True)
+                ev["retrace_of"] = [mu(p.order[0]) for p in path.phasepoints[:k + 1]][::-1]
+                ev["retrace"] = [mu(p.order[0]) for p in back.phasepoints]
             events.append(ev)
     except Exception as exc:  # noqa: BLE001
         import traceback
@@ -138,174 +200,88 @@ def inprocess_job(args):
     return events
 
 
-# ---------------------------------------------------------------------------
-def min_image_dist(p, box):
-    d = p[1] - p[0]
-    d = d - np.rint(d / box) * box
-    return float(np.sqrt(np.dot(d, d)))
-
-
-def lammps_job(args):
-    """The real LAMMPSEngine._propagate_from against a fake `lmp` whose output timing is scripted."""
-    seed, batches, exit_code, nframes, stop_at = args
-    from infretis.classes import orderparameter as OP
-    from infretis.classes.engines import lammps as LM
-    from infretis.classes.path import Path
-    from infretis.classes.system import System
-    rnd = random.Random(seed)
-    work = common.tmpdir("c12l-")
-    try:
-        eng, conf, _info = engines.build("lammps")
-        eng.exe_dir = work
-        eng.rgen = np.random.default_rng(seed)
-        eng.sleep = 0.0
-        eng.order_function = OP.Distance((0, 1), periodic=True)
-        # frames: two atoms, a box that changes every frame, the separation straddles half a box so the
-        # order parameter depends on which box is used
-        frames = []
-        for k in range(nframes):
-            L = 8.0 + 0.9 * k
-            sep = 4.6 + 0.35 * k if k < stop_at else 0.4
-            pos = np.array([[1.0, 1.0, 1.0], [1.0 + sep, 1.0, 1.0]])
-            frames.append((pos, np.array([L, L, L])))
-        expected = [min_image_dist(p, b) for p, b in frames]
-        left, right = 1.0, 50.0
-        blobs = [writers.lammpstrj_frame(k, [1, 2], pos.tolist(), [[0.1, 0, 0], [-0.1, 0, 0]], [(0.0, float(b[0]))] * 3, fmt="{:.8f}")
-                 for k, (pos, b) in enumerate(frames)]
-        start = os.path.join(work, "start.lammpstrj")
-        with open(start, "wb") as fh:
-            fh.write(blobs[0])
-        state = {"written": 0, "rc": None, "killed": False, "sched": list(batches), "traj": None}
-
-        class FakeProc:
-            pid = 4242
-
-            def __init__(self, cmd, **kw):
-                inp = cmd[cmd.index("-i") + 1]
-                with open(inp) as fh:
-                    txt = fh.read()
-                name = [ln.split()[-1] for ln in txt.split("\n") if ln.startswith("variable\tname") or ln.startswith("variable 	name")]
-                m = re.search(r"variable\s+name index (\S+)", txt)
-                state["traj"] = os.path.join(work, m.group(1) + ".lammpstrj")
-                with open(os.path.join(work, "log.lammps"), "w") as fh:
-                    fh.write("Step KinEng PotEng TotEng Temp\n" + "".join(f"{k} 0.1 0.2 0.3 300\n" for k in range(nframes)) + "Loop time of 1\n")
-                self.returncode = None
-                advance()
-
-            def poll(self):
-                self.returncode = state["rc"]
-                return state["rc"]
-
-            def wait(self, timeout=None):
-                self.returncode = state["rc"] if state["rc"] is not None else -15
-                return self.returncode
-
-        def advance():
-            if state["rc"] is not None:
-                return
-            n = state["sched"].pop(0) if state["sched"] else nframes
-            upto = min(nframes, state["written"] + n)
-            with open(state["traj"], "ab") as fh:
-                for k in range(state["written"], upto):
-                    fh.write(blobs[k])
-            state["written"] = upto
-            if upto >= nframes and not state["sched"]:
-                state["rc"] = exit_code
-
-        def fake_sleep(_t):
-            advance()
-
-        def killpg(_pg, _sig):
-            state["killed"] = True
-            state["rc"] = -15
-
-        saved = (LM.subprocess, LM.sleep, LM.os)
-        LM.subprocess = types.SimpleNamespace(Popen=FakeProc, PIPE=-1)
-        LM.sleep = fake_sleep
-        fake_os = types.SimpleNamespace(**{k: getattr(os, k) for k in dir(os) if not k.startswith("__")})
-        fake_os.killpg = killpg
-        fake_os.getpgid = lambda pid: pid
-        fake_os.setsid = os.setsid
-        LM.os = fake_os
-        path = Path(maxlen=nframes + 3)
-        s = System()
-        s.set_pos((start, 0))
-        from infretis.classes.formatter import FileIO, OutputFormatter
-        msg = FileIO(os.path.join(work, "msg.txt"), "w", OutputFormatter("MSG_File"), backup=False)
-        msg.open()
-        must_raise = exit_code != 0 and stop_at >= nframes
-        try:
-            success, _st = eng._propagate_from("traj007", path, s, {"interfaces": (left, 2.0, right)}, msg, reverse=False)
-            raised = False
-        except RuntimeError as exc:
-            raised, success = True, False
-            detail = str(exc)[:120]
-        finally:
-            msg.close()
-            LM.subprocess, LM.sleep, LM.os = saved
-        if raised:
-            return [blank_event("lammps", raised=True, must_raise=must_raise, args=list(args))]
-        got = [float(p.order[0]) for p in path.phasepoints]
-        ok_ord = all(abs(g - e) < 1e-6 for g, e in zip(got, expected)) and len(got) <= len(expected)
-        ok_ref = all(p.config[1] == k and p.config[0] == state["traj"] for k, p in enumerate(path.phasepoints))
-        exp_len = min(stop_at + 1, nframes)
-        ev = blank_event("lammps", must_raise=must_raise, first_is_start=abs(got[0] - expected[0]) < 1e-6, frames_reference_k=ok_ref,
-                         orders_match=ok_ord, cls=[cls_of(g, left, right) for g in got], maxlen=path.maxlen, success=bool(success),
-                         expected_len=exp_len if stop_at < nframes else 0, program_stopped=state["rc"] is not None,
-                         args=list(args), stored=got, recomputed=expected[:len(got)])
-        if stop_at >= nframes and exit_code == 0:
-            # the program ran to its end without reaching an interface: the path is everything it wrote
-            ev["success"] = bool(success)
-            ev["maxlen"] = len(got) if not success else path.maxlen
-            ev["expected_len"] = nframes
-        return [ev]
-    except Exception as exc:  # noqa: BLE001
-        import traceback
-        return [{"_error": f"{type(exc).__name__}: {exc}", "tb": traceback.format_exc()[-1500:], "engine": "lammps", "args": list(args)}]
-    finally:
-        shutil.rmtree(work, ignore_errors=True)
-
-
 def schedules(chk, work, q):
-    """Batch schedules (frames appended between polls) from Poller.tla behaviours."""
+    """Output-timing schedules from Poller.tla behaviours: half-frames appended between the engine's looks, and how many
+    looks pass between the last write and the program's exit."""
     cfg = os.path.join(work, "PollerE.cfg")
+    consts = {"F": 4, "U": 2, "MaxPolls": 6, "StopAt": 3, "MaxLen": 9}
     with open(cfg, "w") as fh:
-        fh.write("SPECIFICATION Spec\nCONSTANTS\n  F = 4\n  U = 1\n  MaxPolls = 5\n  StopAt = 3\n  MaxLen = 9\n  ExitCodes = {0, 1}\n"
+        fh.write("SPECIFICATION Spec\nCONSTANTS\n" + "".join(f"  {k} = {v}\n" for k, v in consts.items()) + "  ExitCodes = {0, 1}\n"
                  "INVARIANT NoTornFrame\nINVARIANT StopsAtFirstOutside\nINVARIANT ProgramStopped\nINVARIANT FailureRaises\nCHECK_DEADLOCK FALSE\n")
     try:
         res = tlc.run_tlc("Poller", cfg, timeout=1500, allow_violation=True)
-        chk.add_tlc(res, {"F": 4, "U": 1, "MaxPolls": 5, "StopAt": 3})
+        chk.add_tlc(res, consts)
         if not res["ok"]:
             chk.machinery(f"TLC refuted {res['violated']} on Poller.tla (engine part)")
     except tlc.TLCError as exc:
         chk.machinery(str(exc)[:1000])
     out = os.path.join(work, "esim")
     os.makedirs(out, exist_ok=True)
-    tlc.run_tlc("Poller", cfg, workers=2, simulate=f"file={out}/tr,num={40 if q else 400}", depth=25, seed=chk.seed + 9, coverage=False,
+    tlc.run_tlc("Poller", cfg, workers=2, simulate=f"file={out}/tr,num={60 if q else 600}", depth=30, seed=chk.seed + 9, coverage=False,
                 timeout=600, allow_violation=True)
     scheds = set()
     for b in tlc.read_sim_traces(out):
         cuts = list(b[-1][1]["cuts"])
-        batches = [c - p for p, c in zip([0] + cuts, cuts)]
-        scheds.add(tuple(batches))
+        batches = tuple(c - p for p, c in zip([0] + cuts, cuts))
+        full_at = next((st["npoll"] for _a, st in b if st["written"] == consts["F"] * consts["U"]), None)
+        exit_at = next((st["npoll"] for _a, st in b if st["prog"] == "exited"), None)
+        delay = 0 if full_at is None or exit_at is None else max(0, min(2, exit_at - full_at))
+        scheds.add((batches, delay))
     common.rmtree(out)
     return sorted(scheds)
 
 
+EXTERNAL = ("lammps", "cp2k", "gromacs")
+INPROCESS = ("lattice", "turtlemd", "ase")
+
+
+def external_jobs(scheds, rnd, q):
+    jobs = []
+    combos = [(False, False), (True, False), (False, True), (True, True)]
+    n = 0
+    for kind in EXTERNAL:
+        for batches, delay in scheds:
+            for variant in range(2 if q else 6):
+                n += 1
+                reverse, start_rev = combos[n % 4]
+                maxlen = rnd.choice([4, 5, 7])
+                cross_at = rnd.choice([1, 2, 3, maxlen - 1, maxlen, None])
+                script = {"batches": list(batches), "exit_delay": delay, "lag": rnd.choice([0, 1, 2]) if kind == "cp2k" else 0}
+                if variant % 2 == 1:
+                    script["crash_after"] = rnd.randrange(1, maxlen + 1)
+                retrace = "crash_after" not in script and not reverse
+                jobs.append((kind, rnd.randrange(10 ** 6), script, reverse, start_rev, cross_at, maxlen, rnd.choice([1, 2, 3]), retrace))
+        # everything at once and exit; frame by frame; bursts that end with the program's own exit
+        for batches, delay in (((40,), 0), ((2,) * 12, 0), ((1,) * 24, 1), ((4, 0, 0, 40), 0), ((0, 0, 3, 40), 0), ((6, 40), 0), ((5, 40), 1)):
+            for reverse, start_rev in combos:
+                maxlen = 6
+                jobs.append((kind, rnd.randrange(10 ** 6), {"batches": list(batches), "exit_delay": delay, "lag": 1 if kind == "cp2k" else 0},
+                             reverse, start_rev, rnd.choice([3, 5, None]), maxlen, 2, not reverse))
+    return jobs
+
+
+def rerun(ev):
+    from harness import extdrv
+    a = ev["args"]
+    if a[0] in EXTERNAL:
+        return extdrv.external_job(tuple(a))
+    return [e for e in inprocess_job((a[0], a[1])) if e.get("rep") == ev.get("rep") or "_error" in e]
+
+
 def main(tier, replay=None):
+    from harness import extdrv
     chk = common.Check(PID, tier, "model_checking")
     q = tier == "quick"
     if replay:
         with open(replay) as fh:
             rp = json.load(fh)
-        ev = rp["observed"]
-        evs = lammps_job(tuple(tuple(x) if isinstance(x, list) else x for x in ev["args"])) if ev["engine"] == "lammps" else inprocess_job((ev["engine"], ev.get("seed", 0)))
+        evs = rerun(rp["observed"])
         work = common.tmpdir("c12r-")
         try:
             bad, _ok = validate(chk, [e for e in evs if "_error" not in e], work)
         finally:
             common.rmtree(work)
-        if bad:
+        if bad or any("_error" in e for e in evs):
             print(f"VIOLATION property={PID} replay={replay}\n  {sorted({c for _i, c in bad})}")
             return 1
         print("replay: holds")
@@ -314,54 +290,61 @@ def main(tier, replay=None):
     try:
         scheds = schedules(chk, work, q)
         rnd = random.Random(chk.seed + 91)
-        jobs = []
-        for sc in scheds:
-            nfr = 6
-            # scale the abstract batches (0..4 frames) to the file and pad so that every frame gets written
-            batches = [max(0, b) for b in sc] + [nfr]
-            for stop_at, code in ((3, 0), (nfr, 0), (nfr, 1), (2, 1)):
-                jobs.append((rnd.randrange(10 ** 6), tuple(batches), code, nfr, stop_at))
-        for nb in ([(6,), (1, 1, 1, 1, 1, 1), (2, 4), (0, 3, 3)]):
-            jobs.append((rnd.randrange(10 ** 6), nb, 0, 6, 4))
-        lres = common.pmap(lammps_job, jobs)
-        ires = common.pmap(inprocess_job, [(k, rnd.randrange(10 ** 6)) for k in ("lattice", "turtlemd") for _ in range(4 if q else 24)])
+        jobs = external_jobs(scheds, rnd, q)
+        xres = common.pmap(extdrv.external_job, jobs)
+        ires = common.pmap(inprocess_job, [(k, rnd.randrange(10 ** 6)) for k in INPROCESS for _ in range(4 if q else 24)])
         events = []
-        for evs in lres + ires:
+        for evs in xres + ires:
             for ev in evs:
                 if "_error" in ev:
-                    chk.machinery(f"{ev['engine']}: {ev['_error']}\n{ev.get('tb', '')[-600:]}")
+                    # the engine class failed in a way that is not the scripted program failure: a finding about the engine, not the harness
+                    sig = f"raise:{ev['_error'].split(':')[0]};engine:{ev['engine']}"
+                    chk.violation(sig, f"a propagation of the {ev['engine']} engine ended in {ev['_error']}\n{ev.get('tb', '')[-700:]}",
+                                  {"property": PID, "binding": "C", "spec": "TraceEngine", "clause": "E_Returned", "observed": {"engine": ev["engine"], "args": ev.get("args", [ev["engine"], 0])}})
                 else:
                     events.append(ev)
         bad, ok = validate(chk, events, work)
         for idx, clause in bad:
             ev = events[idx]
-            chk.violation(f"clause:{clause};engine:{ev['engine']}", f"a propagation of the {ev['engine']} engine violates {clause} of TraceEngine.tla: "
-                          f"{json.dumps({k: ev.get(k) for k in ('stored', 'recomputed', 'cls', 'success', 'args')})[:400]}",
+            chk.violation(f"clause:{clause};engine:{ev['engine']}" + (";reverse" if ev["reverse"] and clause in ("E_OrdersRecomputed", "E_RanFromStart", "E_Retrace", "E_FirstIsStart", "E_StopRule") else ""),
+                          f"a propagation of the {ev['engine']} engine violates {clause} of TraceEngine.tla: "
+                          f"{json.dumps({k: ev.get(k) for k in ('stored', 'recomp', 'expect', 'start', 'left', 'right', 'success', 'vrev', 'raised', 'must_raise', 'retrace', 'retrace_of', 'args')})[:700]}",
                           {"property": PID, "binding": "C", "spec": "TraceEngine", "clause": clause, "observed": ev})
         chk.evaluated(len(events))
         chk.traces(len(events))
         for i, ev in enumerate(events):
-            chk.nontrivial((ev["engine"], json.dumps(ev.get("args", i))))
-        lam = [e for e in events if e["engine"] == "lammps" and not e["raised"]]
-        if lam:
-            chk.sample({"kind": "LAMMPS propagation against the fake program", "event": lam[0]})
-        print(f"  propagations recorded and validated: {len(events)} ({len(lres)} LAMMPS schedules from {len(scheds)} Poller.tla behaviours)", flush=True)
+            chk.nontrivial((ev["engine"], json.dumps(ev.get("args", i)), ev.get("rep", 0)))
+        per = {k: sum(1 for e in events if e["engine"] == k) for k in EXTERNAL + INPROCESS}
+        for k in EXTERNAL:
+            ex = [e for e in events if e["engine"] == k and not e["raised"] and e["reverse"]]
+            if ex:
+                chk.sample({"kind": f"{k} backward propagation against the impersonated program", "event": {kk: ex[0][kk] for kk in ("stored", "recomp", "expect", "vrev", "success", "args")}})
+        nraise = sum(1 for e in events if e["raised"])
+        nretr = sum(1 for e in events if e["retrace_of"])
+        print(f"  propagations recorded and validated: {per} ({len(scheds)} Poller.tla schedules; {nraise} raised on a scripted crash; {nretr} retraced backward)", flush=True)
+        for k in EXTERNAL + INPROCESS:
+            if per[k] == 0:
+                chk.machinery(f"no propagation of the {k} engine was recorded")
     finally:
         common.rmtree(work)
-    chk.assumptions += ["the real MD programs are absent: LAMMPS is impersonated at the level of the files it writes and its process status; "
-                        "GROMACS and CP2K propagation loops are not driven in this tier (their on-the-fly readers are C13)",
-                        "TurtleMD and the lattice plug-in run for real, in-process"]
-    return chk.finish("output-timing schedules from Poller.tla x (stop position, exit code) driven through the real LAMMPS propagation loop; "
-                      "real TurtleMD / lattice propagations with random interfaces and length limits; distinct by parameters")
+    chk.assumptions += ["the real MD programs are absent: GROMACS (mdrun, grompp, energy), CP2K and LAMMPS are impersonated at the level of the input they are "
+                        "handed, the files they grow and their process status; the impersonation is a time-reversible integrator that starts from what the engine wrote",
+                        "TurtleMD (velocity Verlet), ASE (velocity Verlet, Lennard-Jones) and the lattice plug-in run for real, in-process",
+                        "order parameters used depend on positions, box and velocities, so the velocity direction used for a frame is observable"]
+    return chk.finish("output-timing schedules from Poller.tla x (direction, velocity flag of the start point, crossing frame, length limit, subcycles, crash point, "
+                      "pos/vel file lag) driven through EngineBase.propagate of the real GROMACS, CP2K and LAMMPS classes; real TurtleMD / ASE / lattice "
+                      "propagations with random interfaces and length limits; distinct by parameters")
+
+
+KEEP = ("raised", "must_raise", "may_raise", "maxlen", "left", "right", "start", "stored", "recomp", "expect", "refs", "vrev", "reverse", "samefile",
+        "success", "program_stopped", "request_ok", "retrace", "retrace_of")
 
 
 def validate(chk, events, work):
     path = os.path.join(work, "eng.ndjson")
-    keep = ("raised", "must_raise", "first_is_start", "frames_reference_k", "orders_match", "cls", "maxlen", "success", "expected_len",
-            "program_stopped", "retrace_checked", "retrace_ok")
     with open(path, "w") as fh:
         for ev in events:
-            fh.write(json.dumps({k: ev[k] for k in keep}) + "\n")
+            fh.write(json.dumps({k: ev[k] for k in KEEP}) + "\n")
     cfg = os.path.join(work, "TraceEngine.cfg")
     with open(cfg, "w") as fh:
         fh.write("SPECIFICATION TSpec\nINVARIANT Report\nCHECK_DEADLOCK FALSE\n")
